@@ -48,6 +48,8 @@ PAYLOADS = {
     "newline_stmt": "\n" + CALL + "()\n", "fmt_braces": "{" + CALL + "}", "open_braces": "{{", "close_brace": "}", "hash_comment": " # " + CALL,
     "tdq_call": '"""+' + CALL + '()+"""', "idx_call": '"]; ' + CALL + "() #", "sq_idx_call": "']; " + CALL + "() #", "named_escape": "\\N{BULLET}",
     "hex_escape": "\\x41", "percent": "%s %(x)s", "bell": "\x07", "tdq_nl_call": '"""\n' + CALL + '()\n"""', "cr": "\r" + CALL + "()",
+    # boundary classes: the hostile character is the very last / very first character of the text
+    "trail_dq": '"', "trail_sq": "'", "lead_dq": '"', "lead_bs": "\\",
 }
 
 
@@ -56,8 +58,10 @@ def payload_text(cls: str, slot: int = 0) -> str:
     collapse into one member name just because the hostile characters are stripped)."""
     frag = PAYLOADS[cls]
     a, b = f"{CA}s{slot}s", f"s{slot}s{CB}"
-    if cls == "trail_bs":
-        return a + "x" + frag          # the payload must END in the backslash
+    if cls in ("trail_bs", "trail_dq", "trail_sq"):
+        return a + "x" + frag          # the payload must END in the hostile character
+    if cls in ("lead_dq", "lead_bs"):
+        return frag + "x" + b          # ... or START with it
     return a + frag + b
 
 
@@ -106,6 +110,7 @@ CARRIER = {
                 "kind": {"$ref": "#/components/schemas/Kind"},
                 "level": {"$ref": "#/components/schemas/Level"},
                 "mode": {"type": "string", "enum": ["fast", "slow"], "default": "fast"},
+                "maybeMode": {"type": "string", "enum": ["on", "off", None]},
                 "fixed": {"const": "constant text"},
                 "either": {"anyOf": [{"$ref": "#/components/schemas/Problem"}, {"type": "string"}], "description": "union description"},
                 "tagsList": {"type": "array", "items": {"type": "string"}, "description": "array description"},
@@ -228,6 +233,12 @@ def sweep(tier):
     for i, (ptr, kind) in enumerate(ALL_SLOTS):
         for cls in PAYLOADS:
             out.append({"slots": [[i, cls]], "meta": "setup", "cfg": {}})
+    # free-text sinks once more under docstrings_on_attributes (another docstring site) and without metadata
+    for i, (ptr, kind) in enumerate(ALL_SLOTS):
+        pat = slot_pattern(ptr, kind)
+        if kind == "value" and any(pat.endswith(sfx) for sfx in ("description", "title", "summary", "example", "example.name")):
+            for cls in PAYLOADS:
+                out.append({"slots": [[i, cls]], "meta": "none", "cfg": {"docstrings_on_attributes": True}})
     if tier == "thorough":
         for i, (ptr, kind) in enumerate(ALL_SLOTS):
             for cls in PAYLOADS:
@@ -448,10 +459,10 @@ def _run(case, ctx):
                         continue
                 # rejected with a diagnostic and absent?
                 canary_present = any((CA in c) for c in all_consts)
-                if diag and not any(text[:8] in c for c in all_consts if CA in c):
+                if diag and not any(text[2:10] in c for c in all_consts if (CA in c or CB in c)):
                     ctx.label("piece_rejected_with_diagnostic")
                     continue
-                near = [c for c in all_consts if CA in c][:2]
+                near = [c for c in all_consts if (CA in c or CB in c)][:2]
                 ctx.violation("fidelity.reproduced_exactly", {"slot": a["pattern"], "class": a["class"], "kind": "fidelity"},
                               f"{text!r} not found as a string constant; nearest: {near!r}"[:400])
     finally:
